@@ -131,6 +131,25 @@ def clean_tokens(tokens):
     return out
 
 
+def idl_problem(b, root, I):
+    """The independent decoder's view of the first place where the bytes leave the IDL (field path without indices,
+    declared type, wire type found): names the cause when the acceptor rejects a trace.  Empty-list element types
+    (tolerated, KF-C02-1) are skipped."""
+    probs = []
+    try:
+        compact.decode(b, 0, root, I, strict=False, problems=probs)
+    except Exception as e:  # noqa
+        return {"field": "?", "declared": "undecodable", "found": type(e).__name__}
+    for pr in probs:
+        m = re.match(r"^(.*): wire type (\d+), IDL declares (\S+)", pr)
+        if m:
+            decl = m.group(3)
+            return {"field": re.sub(r"\[\d+\]", "[]", m.group(1)).split(".", 1)[-1],
+                    "declared": decl if decl in ("i8", "i16", "i32", "i64", "bool", "double", "binary", "string") else "i32 (enum)",
+                    "found": int(m.group(2))}
+    return None
+
+
 def to_thrift_object(PT, I, sname, value):
     """build the library's object through its constructor API, marking i32 fields as the writer does"""
     fields = I.structs[sname]
@@ -207,7 +226,7 @@ def shape_job(args):
             try:
                 toks, _ = compact.tokenize(b1, 0)
                 out["traces"].append({"root": sname, "tolerate_empty": True, "tokens": clean_tokens(toks),
-                                      "sig": dict(sig, route=route), "si": si})
+                                      "sig": dict(sig, route=route), "si": si, "idl_problem": idl_problem(b1, sname, I)})
             except Exception as e:  # noqa
                 out["viol"].append((dict(sig, route=route, what="re-serialised bytes cannot be tokenised", exc=type(e).__name__), si))
     return out
@@ -424,7 +443,8 @@ def route_job(args):
                     try:
                         toks, _ = compact.tokenize(b, 0)
                         out["traces"].append({"root": "FileMetaData", "tolerate_empty": True, "tokens": clean_tokens(toks),
-                                              "sig": a_sig, "si": pi, "digest": hash(b)})
+                                              "sig": a_sig, "si": pi, "digest": hash(b),
+                                              "idl_problem": idl_problem(b, "FileMetaData", I)})
                     except Exception as e:  # noqa
                         out["viol"].append((dict(a_sig, what="serialised metadata cannot be tokenised", exc=type(e).__name__), pi))
         except BaseException:  # noqa
@@ -549,8 +569,10 @@ def _run(ev, work, thorough):
             else:
                 at = prog.get(i + 1, 1)
                 tok = t["tokens"][at - 1] if 0 < at <= len(t["tokens"]) else None
+                ip = t.get("idl_problem") or {}
                 sig = dict(t["sig"], what="serialised bytes do not conform to the IDL",
-                           token=(tok or {}).get("tok"), wire_type=(tok or {}).get("wt", (tok or {}).get("et")))
+                           token=(tok or {}).get("tok"), wire_type=(tok or {}).get("wt", (tok or {}).get("et")),
+                           declared=ip.get("declared"), field=ip.get("field"))
                 verd.add(sig, {"rejected_at_token": at, "token": tok, "root": t["root"]}, cost=len(t["tokens"]))
         ev.extra["empty_lists_tolerated"] = tolerated
     # ---- size sweep on the real serialiser ----
